@@ -81,6 +81,7 @@ pub fn main(args: &[String]) {
         libc::setrlimit(libc::RLIMIT_CORE, &core);
     }
     install_quiet_panic_hook();
+    alloc::warm_up();
     let f = std::fs::File::open(&inputs).unwrap_or_else(|e| tool_error(&format!("open {inputs:?}: {e}")));
     let mut cache: Option<(String, std::sync::Arc<Seed>)> = None;
     for (n, line) in BufReader::new(f).lines().enumerate() {
@@ -96,7 +97,7 @@ pub fn main(args: &[String]) {
         let sname = gs(&spec, "seed").to_string();
         let key = format!("{fmt}/{sname}");
         if cache.as_ref().map(|c| c.0 != key).unwrap_or(true) {
-            cache = Some((key.clone(), std::sync::Arc::new(crate::formats::build(&fmt, &sname))));
+            cache = Some((key.clone(), std::sync::Arc::new(crate::load_seed(&inputs, &fmt, &sname))));
         }
         let seed = cache.as_ref().unwrap().1.clone();
         let bytes = crate::mutate::apply(&seed, &spec["op"], &key);
